@@ -118,3 +118,4 @@ def check(ctx):
                "Mutex.data is accessed outside the guard: %s" % sorted(extra), None)
     if ctx.cfg == "default":
         witness.run_witness(ctx, "c05_mutex", ctx.prog.extract_info["target"])
+    shared.mutex_cancel_arm_rules(ctx)
